@@ -95,7 +95,9 @@ pub fn write_models(out: &mut String, inp: &Input) {
     }
 }
 
-pub fn run(ctx: &Ctx, out: &mut dyn Write) {
+pub const KINDS: &[&str] = &["c01"];
+
+pub fn run(_kind: &str, ctx: &Ctx, out: &mut dyn Write) {
     let mut rng = Rng::new(ctx.seed);
     let srcs = sources(ctx, &mut rng);
     let mut k = 0;
